@@ -13,6 +13,7 @@
   label, and the orbital and the spin are below that site's numbers of orbitals and spins.
 -/
 import PomerolModel.Spec.IndexBij
+import PomerolModel.Spec.IndexInvariance
 
 namespace Pomerol.Properties.C18
 open Pomerol.Model Pomerol.Model.Lat Pomerol.Model.Idx Pomerol.Spec.IndexBij
@@ -83,5 +84,185 @@ theorem break_variant_was_wrong :
 
 /-- The source currently says `continue`, which is the variant the theorems above are about. -/
 theorem source_uses_continue : Pomerol.Gen.Core.spinMajorBreaks = false := by decide
+
+/-! ## Invariance: "renaming sites or switching the ordering mode changes every result only by
+the induced permutation of indices"
+
+Proofs in `Spec/IndexInvariance.lean`.  A polynomial `H` of the operator algebra is read as an
+operator `r.poly H` in an arbitrary representation `r` of the canonical anticommutation relations
+(`c_i² = c†_i² = 0` assumed, as for the Jordan-Wigner matrices and in every algebra without
+2-torsion).  `r.reindex π _` is the representation with renumbered operators `c_{π i}`, `c†_{π i}`.
+The statements are about operators, not about the stored polynomials: the library stores products
+normal-ordered, and renumbering the indices of a normal-ordered product can cost a sign
+(`IndexInvariance.mapIdx_not_normal_ordered`). -/
+
+section Invariance
+open Pomerol.Spec Pomerol.Spec.IndexInvariance
+open scoped Pomerol.Spec.Exact
+variable {K A : Type} [CommRing K] [DecidableEq K] [Ring A] [Algebra K A]
+
+omit [DecidableEq K] in
+/-- Renumbering the modes by an injective map turns creation/annihilation operators obeying the
+canonical anticommutation relations into operators obeying them again (and keeps `c_i² = c†_i² = 0`):
+there is a CAR representation whose `i`-th operators are the `π i`-th operators of the given one. -/
+theorem renumbered_representation_is_car (r : CARRep K A) (π : Nat → Nat)
+    (hπ : Function.Injective π) :
+    ∃ r' : CARRep K A, r' = r.reindex π hπ ∧ (∀ i, r'.c i = r.c (π i)) ∧
+      (∀ i, r'.cd i = r.cd (π i)) ∧
+      ((∀ i, r.c i * r.c i = 0) → ∀ i, r'.c i * r'.c i = 0) ∧
+      ((∀ i, r.cd i * r.cd i = 0) → ∀ i, r'.cd i * r'.cd i = 0) :=
+  ⟨r.reindex π hπ, rfl, fun _ => rfl, fun _ => rfl, reindex_sq_c r π hπ, reindex_sq_cd r π hπ⟩
+
+/-- **Switching the ordering mode only renumbers the operators.**  Let the sites of `L` have distinct
+labels and let `π = modePerm L.sites` send the index a triple (label, orbital, spin) has in the
+site-major table (`order_spins = false`) to the index it has in the spin-major table
+(`order_spins = true`).  Then `π` is a permutation of ℕ that maps `0..IndexSize-1` onto itself and
+fixes everything else, it intertwines the two forward lookups for every triple, and for every CAR
+representation: both Hamiltonians are built, and the site-major Hamiltonian written with the
+renumbered operators `c_{π i}`, `c†_{π i}` IS the spin-major Hamiltonian written with `c_i`, `c†_i`
+-- the same operator. -/
+theorem mode_switch_is_renumbering (L : Lat.Lattice K) (hd : (L.sites.map (·.label)).Nodup) :
+    Function.Bijective (modePerm L.sites) ∧
+    (∀ i, i < indexSize L.sites → modePerm L.sites i < indexSize L.sites) ∧
+    (∀ i, indexSize L.sites ≤ i → modePerm L.sites i = i) ∧
+    (∀ x, modePerm L.sites (getIndex (enumerate L.sites false) x) =
+      getIndex (enumerate L.sites true) x) ∧
+    ∀ (r : CARRep K A), (∀ i, r.c i * r.c i = 0) → (∀ i, r.cd i * r.cd i = 0) →
+      ∃ H0 H1 : Poly K, indexHamiltonian L (enumerate L.sites false) = some H0 ∧
+        indexHamiltonian L (enumerate L.sites true) = some H1 ∧
+        (r.reindex (modePerm L.sites) (modePerm_injective L.sites hd)).poly H0 = r.poly H1 :=
+  ⟨modePerm_bijective L.sites hd, modePerm_lt L.sites hd,
+    fun i hi => tableMap_of_ge i (by rw [enumerate_length]; exact hi),
+    modePerm_getIndex L.sites hd,
+    fun r hc hcd => indexHamiltonian_mode_switch L.sites hd L r hc hcd⟩
+
+/-- **Renaming the sites only renumbers the operators.**  Let the sites of `L` have distinct labels,
+let every stored term name a label for each of its operators (`LabelsComplete`, true for all preset
+terms), and let `ρ` be injective on the labels occurring in `L`.  `relabel ρ L` is the lattice with
+every label renamed; its sites are sorted by the NEW labels (as the `std::map` keeps them), so the
+enumeration order can change.  Let `π = relabelPerm ρ L.sites mode` send the index of a triple in
+the table of `L` to the index of the renamed triple in the table of `relabel ρ L`.  Then `π` is a
+permutation of ℕ, and for every ordering mode and CAR representation: both Hamiltonians are built,
+and the Hamiltonian of `L` written with the renumbered operators `c_{π i}`, `c†_{π i}` IS the
+Hamiltonian of the relabelled lattice written with `c_i`, `c†_i`. -/
+theorem renaming_sites_is_renumbering (ρ : String → String) (L : Lat.Lattice K)
+    (hd : (L.sites.map (·.label)).Nodup) (hwf : LabelsComplete L)
+    (hρ : ∀ a ∈ labelsOf L, ∀ b ∈ labelsOf L, ρ a = ρ b → a = b) (mode : Bool) :
+    ((relabel ρ L).sites.map (·.label)).Pairwise (· < ·) ∧
+    (relabel ρ L).sites.Perm (L.sites.map (renameSite ρ)) ∧
+    Function.Bijective (relabelPerm ρ L.sites mode) ∧
+    ∀ (r : CARRep K A), (∀ i, r.c i * r.c i = 0) → (∀ i, r.cd i * r.cd i = 0) →
+      ∃ H H' : Poly K, indexHamiltonian L (enumerate L.sites mode) = some H ∧
+        indexHamiltonian (relabel ρ L) (enumerate (relabel ρ L).sites mode) = some H' ∧
+        (r.reindex (relabelPerm ρ L.sites mode)
+          (relabelPerm_injective ρ L.sites hd
+            (fun a ha b hb => hρ a (List.mem_append_left _ ha) b (List.mem_append_left _ hb))
+            mode)).poly H = r.poly H' :=
+  have hρ' : ∀ a ∈ L.sites.map (·.label), ∀ b ∈ L.sites.map (·.label), ρ a = ρ b → a = b :=
+    fun a ha b hb => hρ a (List.mem_append_left _ ha) b (List.mem_append_left _ hb)
+  ⟨relabel_sites_sorted ρ L, sorted_renamed_perm ρ L.sites hd hρ',
+    relabelPerm_bijective ρ L.sites hd hρ' mode,
+    fun r hc hcd => indexHamiltonian_relabel ρ L hd hwf hρ mode r hc hcd⟩
+
+omit [DecidableEq K] in
+/-- **Everything computed from the Hamiltonian and the field operators follows.**  If the
+Hamiltonian `H` of setting 1 read with the renumbered operators is the Hamiltonian `H'` of setting 2
+(the conclusion of the two theorems above), then every polynomial in the field operators of
+setting 1 is the index-renamed polynomial of setting 2, and every quantity `F` that is a function of
+the Hamiltonian operator and of the families `c`, `c†` takes in setting 1 the value it takes in
+setting 2 on the renumbered families -- for `F` = a Green's function: `G'_{ij} = G_{π i, π j}`. -/
+theorem results_change_by_the_induced_permutation (r : CARRep K A) (π : Nat → Nat)
+    (hπ : Function.Injective π) (H H' : Poly K) (hH : (r.reindex π hπ).poly H = r.poly H') :
+    (∀ P : Poly K, (r.reindex π hπ).poly P = r.poly (mapIdx π P)) ∧
+    (∀ (X : Type) (F : A → (Nat → A) → (Nat → A) → X),
+      F ((r.reindex π hπ).poly H) (r.reindex π hπ).c (r.reindex π hπ).cd =
+        F (r.poly H') (fun i => r.c (π i)) (fun i => r.cd (π i))) :=
+  ⟨(observables_follow r π hπ H H' hH).2.2.1, (observables_follow r π hπ H H' hH).2.2.2⟩
+
+/-- **The two Hamiltonian matrices of the two ordering modes are similar.**  On Fock space, with the
+Jordan-Wigner matrices `c_i`, `c†_i` the library computes with: there is an invertible operator `u`
+with `u c_i u⁻¹ = c_{π i}`, `u c†_i u⁻¹ = c†_{π i}` (`π = modePerm L.sites`) and
+`u H_site-major u⁻¹ = H_spin-major`.  Hence the spectra coincide and every expectation value
+of field operators in one mode is the one of the other mode with indices renumbered by `π`. -/
+theorem mode_switch_matrices_similar (L : Lat.Lattice K) (hd : (L.sites.map (·.label)).Nodup) :
+    ∃ (u : (Module.End K (Nat →₀ K))ˣ) (H0 H1 : Poly K),
+      indexHamiltonian L (enumerate L.sites false) = some H0 ∧
+      indexHamiltonian L (enumerate L.sites true) = some H1 ∧
+      (∀ i, (u : Module.End K (Nat →₀ K)) * (jwRep K).c i * ↑u⁻¹ =
+        (jwRep K).c (modePerm L.sites i)) ∧
+      (∀ i, (u : Module.End K (Nat →₀ K)) * (jwRep K).cd i * ↑u⁻¹ =
+        (jwRep K).cd (modePerm L.sites i)) ∧
+      (u : Module.End K (Nat →₀ K)) * (jwRep K).poly H0 * ↑u⁻¹ = (jwRep K).poly H1 :=
+  mode_switch_similar L.sites hd L (jwRep K) (jw_sq_c K) (jw_sq_cd K)
+
+/-- **The Hamiltonian matrices before and after renaming the sites are similar** (hypotheses as in
+`renaming_sites_is_renumbering`; Jordan-Wigner matrices on Fock space; `π = relabelPerm ρ L.sites
+mode`). -/
+theorem renaming_matrices_similar (ρ : String → String) (L : Lat.Lattice K)
+    (hd : (L.sites.map (·.label)).Nodup) (hwf : LabelsComplete L)
+    (hρ : ∀ a ∈ labelsOf L, ∀ b ∈ labelsOf L, ρ a = ρ b → a = b) (mode : Bool) :
+    ∃ (u : (Module.End K (Nat →₀ K))ˣ) (H H' : Poly K),
+      indexHamiltonian L (enumerate L.sites mode) = some H ∧
+      indexHamiltonian (relabel ρ L) (enumerate (relabel ρ L).sites mode) = some H' ∧
+      (∀ i, (u : Module.End K (Nat →₀ K)) * (jwRep K).c i * ↑u⁻¹ =
+        (jwRep K).c (relabelPerm ρ L.sites mode i)) ∧
+      (∀ i, (u : Module.End K (Nat →₀ K)) * (jwRep K).cd i * ↑u⁻¹ =
+        (jwRep K).cd (relabelPerm ρ L.sites mode i)) ∧
+      (u : Module.End K (Nat →₀ K)) * (jwRep K).poly H * ↑u⁻¹ = (jwRep K).poly H' :=
+  relabel_similar ρ L hd hwf hρ mode (jwRep K) (jw_sq_c K) (jw_sq_cd K)
+
+end Invariance
+
+section InvarianceExample
+open Pomerol.Spec.IndexInvariance
+open scoped Pomerol.Spec.Exact
+
+/-- site "A" with two spins, site "B" with one spin, one hopping term `3 c†_(A,0,1) c_(B,0,0)` -/
+def abLattice : Lat.Lattice Int :=
+  ⟨[⟨"A", 1, 2⟩, ⟨"B", 1, 1⟩], [(2, [tHopping "A" "B" 3 0 0 1 0])], 2⟩
+
+/-- EXAMPLE (mode switch).  Site-major table: (A,0,0), (A,0,1), (B,0,0); spin-major table: (A,0,0),
+(B,0,0), (A,0,1); the induced renumbering exchanges 1 and 2.  The site-major Hamiltonian is
+`3 c†₁ c₂`, the spin-major one `3 c†₂ c₁`: the second is the first with indices renamed by `π`. -/
+theorem mode_switch_example :
+    enumerate abLattice.sites false = [⟨"A", 0, 0⟩, ⟨"A", 0, 1⟩, ⟨"B", 0, 0⟩] ∧
+    enumerate abLattice.sites true = [⟨"A", 0, 0⟩, ⟨"B", 0, 0⟩, ⟨"A", 0, 1⟩] ∧
+    (List.range 4).map (modePerm abLattice.sites) = [0, 2, 1, 3] ∧
+    indexHamiltonian abLattice (enumerate abLattice.sites false)
+      = some [([⟨false, 1⟩, ⟨true, 2⟩], 3)] ∧
+    indexHamiltonian abLattice (enumerate abLattice.sites true)
+      = some [([⟨false, 2⟩, ⟨true, 1⟩], 3)] ∧
+    indexHamiltonian abLattice (enumerate abLattice.sites true)
+      = (indexHamiltonian abLattice (enumerate abLattice.sites false)).map
+          (mapIdx (modePerm abLattice.sites)) := by
+  decide
+
+/-- EXAMPLE (renaming).  Renaming "A" to "Z" moves that site behind "B" in the site map; in the
+site-major mode the table becomes (B,0,0), (Z,0,0), (Z,0,1) and the induced renumbering is
+0 → 1 → 2 → 0.  The Hamiltonian `3 c†₁ c₂` becomes `3 c†₂ c₀`: the first with indices renamed.  The
+same in the spin-major mode, where the renumbering is 0 → 1, 1 → 0, 2 → 2. -/
+theorem renaming_example :
+    (relabel exRename abLattice).sites = [⟨"B", 1, 1⟩, ⟨"Z", 1, 2⟩] ∧
+    (getTerms (relabel exRename abLattice) 2).map (·.labels) = [["Z", "B"]] ∧
+    enumerate (relabel exRename abLattice).sites false = [⟨"B", 0, 0⟩, ⟨"Z", 0, 0⟩, ⟨"Z", 0, 1⟩] ∧
+    (List.range 4).map (relabelPerm exRename abLattice.sites false) = [1, 2, 0, 3] ∧
+    indexHamiltonian (relabel exRename abLattice) (enumerate (relabel exRename abLattice).sites false)
+      = some [([⟨false, 2⟩, ⟨true, 0⟩], 3)] ∧
+    (∀ mode : Bool,
+      indexHamiltonian (relabel exRename abLattice)
+          (enumerate (relabel exRename abLattice).sites mode)
+        = (indexHamiltonian abLattice (enumerate abLattice.sites mode)).map
+            (mapIdx (relabelPerm exRename abLattice.sites mode))) ∧
+    (List.range 4).map (relabelPerm exRename abLattice.sites true) = [1, 0, 2, 3] := by
+  decide
+
+/-- The example satisfies the hypotheses of `renaming_sites_is_renumbering`. -/
+theorem renaming_example_hypotheses :
+    (abLattice.sites.map (·.label)).Nodup ∧ LabelsComplete abLattice ∧
+    (∀ a ∈ labelsOf abLattice, ∀ b ∈ labelsOf abLattice, exRename a = exRename b → a = b) := by
+  unfold LabelsComplete
+  decide
+
+end InvarianceExample
 
 end Pomerol.Properties.C18
